@@ -119,6 +119,34 @@ def run(ctx, drv):
             plat.declare_directions(p, dirs, rng.randrange(8))
         ctx.case(("redeclared", n, dirs, constrained), True)
     ctx.count("redeclared_direction_rounds", nre)
+    # a problem and its deep copy (what checkpointing, experiments and process pools create) are independent objects: declaring
+    # directions on one of them must not re-declare the other
+    import copy as _copy
+    ncp = 600 if ctx.quick() else 6000
+    for _ in range(ncp):
+        n = rng.randrange(1, 5)
+        constrained = rng.random() < 0.3
+        dirs = tuple(rng.random() < 0.5 for _ in range(n))
+        p = mk_problem(n, dirs, constrained)
+        q = _copy.deepcopy(p)
+        dirs_q = tuple((not d) if rng.random() < 0.6 else d for d in dirs)
+        which = rng.random() < 0.5
+        plat.declare_directions(q if which else p, dirs_q, rng.randrange(8))
+        dp, dq = (dirs, dirs_q) if which else (dirs_q, dirs)
+        for prob, dr, tag in ((p, dp, "original"), (q, dq, "deep copy")):
+            sa = mk_sol(prob, [float(rng.randrange(3)) for _ in range(n)], float(rng.randrange(2)) if constrained else 0.0)
+            sb = mk_sol(prob, [float(rng.randrange(3)) for _ in range(n)], float(rng.randrange(2)) if constrained else 0.0)
+            r = call(shared.compare, sa, sb)
+            exp = plat.expected_cmp(constrained, dr, sa, sb)
+            if r != exp:
+                ctx.fail("wrong-answer", {"constrained": constrained, "maximise": list(dr), "a": list(sa.objectives), "cv_a": sa.constraint_violation,
+                                          "b": list(sb.objectives), "cv_b": sb.constraint_violation,
+                                          "instance": f"solutions of the {tag}; directions were then declared anew on the {'deep copy' if which else 'original'} only"},
+                         r, exp, "core.ParetoDominance.compare")
+                ctx.failures[-1]["input_class"] = "problem-and-its-deep-copy"
+                break
+        ctx.case(("deepcopied-problem", n, dirs, dirs_q, which), dirs != dirs_q)
+    ctx.count("deep_copied_problem_pairs", ncp)
 
     # ---- how directions are declared: random assignment sequences on a real problem.directions array against the model of
     # Direction.to_direction + FixedLengthArray.__setitem__ (valid and invalid values, indices and slices)
